@@ -26,6 +26,18 @@ from pathlib import Path
 from src.core.types import Violation
 
 
+
+def _format_number(value: int | float) -> str:
+    """Render a numeric literal's value for a message.
+
+    Python refuses to convert integers of more than 4300 digits to decimal text
+    (ValueError); such a value is shown in hexadecimal instead.
+    """
+    try:
+        return str(value)
+    except ValueError:
+        return hex(int(value))
+
 class ViolationBuilder:
     """Builds violations for magic number detections."""
 
@@ -55,9 +67,10 @@ class ViolationBuilder:
         Returns:
             Violation object with details about the magic number
         """
-        message = f"Magic number {value} should be a named constant"
+        shown = _format_number(value)
+        message = f"Magic number {shown} should be a named constant"
 
-        suggestion = f"Extract {value} to a named constant (e.g., CONSTANT_NAME = {value})"
+        suggestion = f"Extract {shown} to a named constant (e.g., CONSTANT_NAME = {shown})"
 
         return Violation(
             rule_id=self.rule_id,
@@ -84,10 +97,11 @@ class ViolationBuilder:
         Returns:
             Violation object with details about the magic number
         """
-        message = f"Magic number {value} should be a named constant"
+        shown = _format_number(value)
+        message = f"Magic number {shown} should be a named constant"
 
         suggestion = (
-            f"Extract {value} to a named constant (e.g., const CONSTANT_NAME: i32 = {value})"
+            f"Extract {shown} to a named constant (e.g., const CONSTANT_NAME: i32 = {shown})"
         )
 
         return Violation(
@@ -115,9 +129,10 @@ class ViolationBuilder:
         Returns:
             Violation object with details about the magic number
         """
-        message = f"Magic number {value} should be a named constant"
+        shown = _format_number(value)
+        message = f"Magic number {shown} should be a named constant"
 
-        suggestion = f"Extract {value} to a named constant (e.g., const CONSTANT_NAME = {value})"
+        suggestion = f"Extract {shown} to a named constant (e.g., const CONSTANT_NAME = {shown})"
 
         return Violation(
             rule_id=self.rule_id,
